@@ -69,8 +69,12 @@ CLAIMED = {
             "Static, on all 61 generated translation units x 3 kernels: accumulator carry/reset pairing, VALID and strict "
             "cutoff gates on every accumulation, per-level loop restart protocol; Python side: struct vs buffer layout, value "
             "vector, strides, max_pd refusal dominating truncation, chunk tiling in 3 drivers, normal form of Fq/Iq with zero "
-            "guards, loop-slot guarantee for truncated distributions.",
-            "Trusted: clang's preprocessing equals the compiler's. Not decided: the numeric identity with the weighted mean.", "C01"),
+            "guards, loop-slot guarantee for truncated distributions.  The OpenCL configuration of the same 61 units "
+            "(clang -x cl on make_source()['opencl']) is decided too: work-item bound, carried q-point sums, gated accumulation; "
+            "and the dll/OpenCL/CUDA Python drivers are cross-checked as siblings (argument order, result size, read-back, "
+            "kernel selection, q layout).",
+            "Trusted: clang's preprocessing equals the compiler's (and clang's OpenCL C front end the device compiler's). Not "
+            "decided: the numeric identity with the weighted mean; the CUDA configuration of the kernel text.", "C01"),
     "C05": ("symbolic interpretation of the rotation helpers (clang AST) vs jitter.py's matrices, polynomial identity in sympy",
             "Static: rotation entries of qabc_rotation/qac_rotation equal the inverse of Rz Ry Rz Rx Ry Rz built from jitter.py; "
             "view/jitter slots, |cos| weight, zero-centred jitter, orientation excluded from 1-D, |q| only for unoriented models, "
